@@ -4,6 +4,7 @@
 //! via the AnyTLS stream pool.
 
 use crate::client::Client;
+use crate::protocol::{Command, Frame};
 use crate::util::{AnyTlsError, Result};
 use bytes::Bytes;
 use std::sync::Arc;
@@ -127,6 +128,8 @@ async fn handle_http_proxy_connection(
                 break;
             }
         }
+        // End of the proxied direction: pass the end-of-stream on to the local client.
+        let _ = client_write.shutdown().await;
     });
 
     let to_proxy = tokio::spawn(async move {
@@ -148,6 +151,11 @@ async fn handle_http_proxy_connection(
                 break;
             }
         }
+        // The local client has finished sending: FIN after all the data, so that the origin
+        // sees end-of-stream; the response direction keeps flowing.
+        let _ = session_for_write
+            .write_control_frame(Frame::control(Command::Fin, stream_id))
+            .await;
     });
 
     let _ = tokio::join!(to_client, to_proxy);
